@@ -314,6 +314,11 @@ def eip712(text):
 # ---------------------------------------------------------------- textual grammars
 HARD = 2**31
 def classify_component(c):
+    ct = c.strip(' \t\n\r\x0b\x0c')
+    if len(ct) != len(c):
+        r = classify_component_trimmed(ct); return r if r == 'reject' else ('unc', r[1])
+    return classify_component_trimmed(c)
+def classify_component_trimmed(c):
     hard = exotic = False
     if c.endswith("'"): body, hard = c[:-1], True
     elif c.endswith('h') or c.endswith('H'): body, hard, exotic = c[:-1], True, True
